@@ -494,6 +494,13 @@ class DiffXReader(object):
         fp = self._fp
         content = fp.read(length)
 
+        if not content:
+            # There's no content at all (the length was 0, or we hit the end
+            # of the file), so it can't end in a newline.
+            raise DiffXParseError(
+                'Expected a newline after content',
+                linenum=self._linenum)
+
         try:
             return self._process_content(
                 content,
